@@ -314,7 +314,7 @@ func c01Sig(job fatJob, step int, ev map[string]any, detail string) ([]string, s
 }
 
 func C01(c *core.Ctx) {
-	c.Rule = "behaviour = (volume configuration, call sequence); call sequences: every sequence of depth D over the boundary alphabet of FatTree_Gen (Mkdir, Create, WriteAt x offsets {0,1,sector,cluster-1,cluster,cluster+1,EOF,EOF+1} x lengths {1,cluster-1,cluster,cluster+1}, Append, Trunc, Rename, Remove, plus calls the tree cannot do) generated by TLC (BFS), TLC -simulate walks incl. Fill, and scripted fill/empty/refill cycles with root-directory churn; configurations: FAT12/16/32 x sizes x start offsets x name sets (plain, 8.3-colliding/mixed-case/non-ASCII, short); non-trivial = every behaviour (distinct key = config|sequence)"
+	c.Rule = "behaviour = (volume configuration, call sequence); call sequences: every sequence of depth D over the boundary alphabet of FatTree_Gen (Mkdir, Create, WriteAt x offsets {0,1,sector,cluster-1,cluster,cluster+1,EOF,EOF+1} x lengths {1,cluster-1,cluster,cluster+1}, Append, Trunc, Rename, Remove, plus calls the tree cannot do) generated by TLC (BFS), TLC -simulate walks incl. Fill, the fragmentation family (every history of chain growth and release over two files, then fill), scripted fill/empty/refill cycles with root-directory churn; two directories with directory rename; write handles kept open across other calls (Hold) while siblings are created, renamed, removed; configurations: FAT12/16/32 x sizes x start offsets x name sets (plain, 8.3-colliding/mixed-case/non-ASCII, short); non-trivial = every behaviour (distinct key = config|sequence)"
 	c.Assumptions = []string{"one handle open at a time", "unit->byte map of DESIGN 3.1: model unit offsets visit 0,1,sector,cluster-1 of every cluster", "refusals are never violations except where FatTree demands success (Fill after space was released)"}
 	mcCfg := "FatTree_MC.cfg"
 	files := map[string][]byte{}
